@@ -45,8 +45,10 @@ def run(ctx):
     # that configuration also checks TextProps on every text it emits)
     cases = []
     seen = set()
-    for cfg in (("Lexer_gen_quick.cfg", "Lexer_gen_tok_quick.cfg") if q else
-                ("Lexer_gen_thorough.cfg", "Lexer_gen_tok_quick.cfg", "Lexer_gen_tok_thorough.cfg")):
+    # Lexer_gen_sem.cfg: the semantically rejected terms (.config / empty key in a filter, .unit in a
+    # projection) as chunks, in every position among well-formed terms and operators (<= 5 chunks)
+    for cfg in (("Lexer_gen_quick.cfg", "Lexer_gen_tok_quick.cfg", "Lexer_gen_sem.cfg") if q else
+                ("Lexer_gen_thorough.cfg", "Lexer_gen_tok_quick.cfg", "Lexer_gen_tok_thorough.cfg", "Lexer_gen_sem.cfg")):
         r = ctx.tlc("Lexer_gen.tla", cfg, timeout=900 if q else 3000, label="gen")
         for c in r.printed_json("case"):
             key = (c["kind"], tuple(c["s"]))
